@@ -22,6 +22,12 @@ IsHex(ch)  == \E i \in 1..16 : UpperHex[i] = ch \/ LowerHex[i] = ch
 HexVal(ch) == (CHOOSE i \in 1..16 : UpperHex[i] = ch \/ LowerHex[i] = ch) - 1
 
 EncByte(b) == IF b \in Unreserved THEN <<b>> ELSE <<PCT, UpperHex[(b \div 16) + 1], UpperHex[(b % 16) + 1]>>
+\* the encoder loop of percent.rs for one byte.  Mutation (a plausible bug, refuted by MC_Percent_mut_Latin1Alnum.cfg):
+\*   Latin1Alnum   the byte is classified through `char`, so the Latin-1 letters 0xAA, 0xB5, 0xBA, 0xC0..0xFF (except
+\*                 0xD7, 0xF7) count as alphanumeric and are left unescaped
+Latin1Letters == {170, 181, 186} \cup (192..214) \cup (216..246) \cup (248..255)
+EncAlgoByte(b, dev) == IF b \in Unreserved \/ ("Latin1Alnum" \in dev /\ b \in Latin1Letters) THEN <<b>>
+                       ELSE <<PCT, UpperHex[(b \div 16) + 1], UpperHex[(b % 16) + 1]>>
 RECURSIVE Enc(_)
 Enc(bs) == IF bs = <<>> THEN <<>> ELSE EncByte(Head(bs)) \o Enc(Tail(bs))
 
